@@ -7,6 +7,7 @@ Length specs:  ("arg", i, unit)   bytes = arg_i * unit
                ("unb",)           not bounded by anything the callee is told
  w = writes through argument, r = reads through argument.
  ret_le = index of the argument that bounds the (unsigned) result, 0 <= ret <= arg.
+ ret_count = (buffer argument, element size): the result is the number of elements stored into that buffer (terminator not counted).
 Everything not listed here and not defined in the library is *unmodelled*.
 """
 
@@ -63,15 +64,15 @@ EXTERNAL = {
     "sprintf":       dict(gram="printf", w=[(0, ("unb",))], r=[(1, ("nul",))], fmt=1),
     "snprintf":      dict(gram="printf", w=[(0, (A, 1, 1))], r=[(2, ("nul",))], fmt=2),
     "vsprintf":      dict(gram="printf", w=[(0, ("unb",))], r=[(1, ("nul",))], fmt=1, va=2),
-    "vsnprintf":     dict(gram="printf", w=[(0, (A, 1, 1))], r=[(2, ("nul",))], fmt=2, va=3),
+    "vsnprintf":     dict(ret_count=(0, 1), gram="printf", w=[(0, (A, 1, 1))], r=[(2, ("nul",))], fmt=2, va=3),
     "__snprintf_chk": dict(gram="printf", w=[(0, (A, 1, 1))], fmt=4),
     "swprintf":      dict(gram="wprintf", w=[(0, (A, 1, 4))], r=[(2, ("nul",))], fmt=2),
-    "vswprintf":     dict(gram="wprintf", w=[(0, (A, 1, 4))], r=[(2, ("nul",))], fmt=2, va=3),
+    "vswprintf":     dict(ret_count=(0, 4), gram="wprintf", w=[(0, (A, 1, 4))], r=[(2, ("nul",))], fmt=2, va=3),
     # ---- multibyte
-    "mbstowcs":      dict(w=[(0, (A, 2, 4))], r=[(1, ("nul",))]),
-    "wcstombs":      dict(w=[(0, (A, 2, 1))], r=[(1, ("nul",))]),
-    "mbsrtowcs":     dict(w=[(0, (A, 2, 4)), (1, ("const", 8)), (3, ("const", 8))], r=[(1, ("const", 8))]),
-    "wcsrtombs":     dict(w=[(0, (A, 2, 1)), (1, ("const", 8)), (3, ("const", 8))], r=[(1, ("const", 8))]),
+    "mbstowcs":      dict(ret_count=(0, 4), w=[(0, (A, 2, 4))], r=[(1, ("nul",))]),
+    "wcstombs":      dict(ret_count=(0, 1), w=[(0, (A, 2, 1))], r=[(1, ("nul",))]),
+    "mbsrtowcs":     dict(ret_count=(0, 4), w=[(0, (A, 2, 4)), (1, ("const", 8)), (3, ("const", 8))], r=[(1, ("const", 8))]),
+    "wcsrtombs":     dict(ret_count=(0, 1), w=[(0, (A, 2, 1)), (1, ("const", 8)), (3, ("const", 8))], r=[(1, ("const", 8))]),
     "wcrtomb":       dict(w=[(0, ("const", 16)), (2, ("const", 8))]),      # MB_LEN_MAX = 16 on glibc
     "wctomb":        dict(w=[(0, ("const", 16))]),
     "mbrtowc":       dict(w=[(0, ("const", 4)), (3, ("const", 8))], r=[(1, (A, 2, 1))]),
